@@ -23,6 +23,18 @@ class Ctx:
         """Key under which a function appears in the reason tables (follows pure renames, engine/reasons.py)."""
         return self.renames.key(key)
 
+    def rks(self, key):
+        """Every key under which reasons for this function may be filed (own key + functions folded into it)."""
+        return self.renames.keys(key)
+
+    def reason_key(self, table, key, *rest):
+        """The key of ``table`` that files function ``key`` (optionally with further components), or None."""
+        for k in self.rks(key):
+            kk = (k,) + rest if rest else k
+            if kk in table:
+                return kk
+        return None
+
     # ------------------------------------------------------------------ call graph
     def node(self, func, ctx):
         if not (func.cls in FAMILY and not func.is_staticmethod()):
